@@ -367,4 +367,32 @@ def stepSelect (env : SelEnv) (s : State) (pid : Nat) : State × Out :=
   | (s, .fail) => (setError s pid, .fail)
   | r => r
 
+/-! ### variant: a select with process sources waits for its await answers
+(`notes/C05-fixes/01-select-waits-for-its-await-answer.patch`, `SelectState.unanswered`)
+
+`unanswered` holds process ids only (no values); like `awaiting_failed` it is kept by the driver and
+reaches the model as one bit: `pending` = "the current select state has an unanswered target". With
+the repair a select whose gate is closed evaluates NOTHING (no start time, no source, nothing
+consumed) and goes back to `selecting`; only the continuation check of phase 1 has run before. With
+`pending = false` this is `handle_select` as it was. -/
+
+def hasSelectStateB (s : State) (pid : Nat) : Bool :=
+  match s.getProc pid with
+  | some p => p.selectState.isSome
+  | none => false
+
+/-- `handle_select` with the gate between phases 2 and 3 -/
+def handleSelectWaiting (env : SelEnv) (pending : Bool) (s : State) (pid : Nat) : State × Out :=
+  match handleSelectContinuation s pid with
+  | (s1, none) => (s1, .fail)
+  | (s1, some _) =>
+    if pending && hasSelectStateB s1 pid then (s1, .wait)     -- `mark_selecting`, `Ok(None)`
+    else handleSelect env s pid
+
+/-- one iteration of the instruction loop on a `Select` instruction, repaired variant -/
+def stepSelectWaiting (env : SelEnv) (pending : Bool) (s : State) (pid : Nat) : State × Out :=
+  match handleSelectWaiting env pending s pid with
+  | (s, .fail) => (setError s pid, .fail)
+  | r => r
+
 end QM.Heap
